@@ -162,7 +162,11 @@ def all_chunkings(stream):
 def deliver(ch, kind, chunks):
     proto, got = {'farm': ch.hand, 'db': ch.dbworker, 'log': ch.logsink}[kind]()
     for c in chunks:
-        proto.dataReceived(c)
+        try:
+            proto.dataReceived(c)
+        except Exception as e:  # pylint: disable=broad-except
+            got.append(('EXC:' + type(e).__name__).encode())  # the connection would be dropped here
+            break
     return list(got)
 
 
